@@ -143,9 +143,19 @@ fn pp_ty(ty: &Type) -> RcDoc<'_> {
     }
 }
 
+/// A property name of an object literal. `'__proto__' : v` would set the prototype of the literal instead of
+/// defining a property, so that name is written as a computed key.
+fn pp_key(name: &str) -> RcDoc<'_> {
+    if name == "__proto__" {
+        str("['__proto__'] ")
+    } else {
+        quote_ident(name)
+    }
+}
+
 fn pp_label(id: &SharedLabel) -> RcDoc<'_> {
     match &**id {
-        Label::Named(str) => quote_ident(str),
+        Label::Named(str) => pp_key(str),
         Label::Id(n) | Label::Unnamed(n) => str("_")
             .append(RcDoc::as_string(n))
             .append("_")
@@ -194,7 +204,7 @@ fn pp_modes(modes: &[candid::types::FuncMode]) -> RcDoc<'_> {
 fn pp_service(serv: &[(String, Type)]) -> RcDoc<'_> {
     let doc = concat(
         serv.iter()
-            .map(|(id, func)| quote_ident(id).append(kwd(":")).append(pp_ty(func))),
+            .map(|(id, func)| pp_key(id).append(kwd(":")).append(pp_ty(func))),
         ",",
     );
     enclose_space("({", doc, "})")
